@@ -55,6 +55,8 @@ class Unit:
     setup: Any = None  # callable(ctx) after parameters exist (extra assumptions, ghost)
     registry: Any = None
     allowed_raises: Any = None  # list of exception class names allowed to escape (None = not checked)
+    all_params: bool = False  # parameters of the real signature that `params` does not list are symbolic too (not defaulted)
+    may_always_raise: bool = False  # the unit is expected to have no normal-return path (vacuity guard off)
     max_paths: int = 4000
     run: Any = None  # custom runner(ctx) replacing the plain call (for traces)
     notes: str = ""
@@ -320,6 +322,20 @@ def setup_ctx(unit: Unit, st: State) -> Ctx:
             ctx.args[name] = fresh_value(st, I.typer, t, name, det=True)
             if isinstance(ctx.args[name], SObj):
                 st.objs[ctx.args[name].oid].meta["symbolic"] = True
+    ctx.auto_kwargs = {}
+    if unit.all_params and unit.run is None:
+        m, ci, node = idx.func(unit.func)
+        listed = {n for n, _ in unit.params}
+        a = node.args
+        real = [x for x in list(a.posonlyargs) + list(a.args) + list(a.kwonlyargs) if x.arg not in ("self", "cls")]
+        for x in real:
+            if x.arg in listed:
+                continue
+            v = fresh_value(st, I.typer, I.typer.from_ann(x.annotation, m if isinstance(m, str) else m.name), x.arg, det=True)
+            if isinstance(v, SObj):
+                st.objs[v.oid].meta["symbolic"] = True
+            ctx.args[x.arg] = v
+            ctx.auto_kwargs[x.arg] = v
     if unit.self_type is not None:
         t = unit.self_type
         ctx.self_val = t(ctx) if callable(t) else fresh_value(st, I.typer, t, "self", det=True)
@@ -345,7 +361,7 @@ def run_path(unit: Unit, st: State):
         else:
             m, ci, node = get_index().func(unit.func)
             f = SFunc(node, m, None, ctx.self_val, ci, node.name)
-            ctx.result = I.call_func(f, [ctx.args[n] for n, _ in unit.params], {})
+            ctx.result = I.call_func(f, [ctx.args[n] for n, _ in unit.params], dict(ctx.auto_kwargs))
         outcome = "return"
     except PyRaise as pr:
         ctx.exc = pr.exc
@@ -373,6 +389,13 @@ def run_unit(unit: Unit, timeout_ms: int = 10000, canaries: bool = True, prefixe
         ur.wall_s = time.time() - t0
         return ur
     ur.paths = len(paths)
+    if paths and prefixes is None and not ur.frontier and not unit.may_always_raise and all(o == "raise" for _st, (_c, o) in paths):
+        # vacuity guard: a unit none of whose paths returns normally has exercised nothing of the contract; either the
+        # harness no longer matches the code (e.g. a new attribute it does not initialise) or the function always fails
+        names = sorted({ctx.I.exc_class_names(ctx.exc)[0] for _st, (ctx, _o) in paths if ctx.exc is not None})
+        ur.unsupported = f"no normal-return path: every one of the {len(paths)} paths raises ({', '.join(names[:4])})"
+        ur.wall_s = time.time() - t0
+        return ur
     for _n, (st, (ctx, outcome)) in enumerate(paths):
         log = st.dctx[0].log
         pi = f"{len(log)}x{int(''.join('1' if b else '0' for b in log) or '0', 2):x}"
